@@ -277,6 +277,10 @@ class Explorer:
                     if stop_on_first:
                         return self
                     continue
+                if getattr(c, 'skip', False):
+                    # the check marked this transition as outside the property's domain: not expanded
+                    c.skip = False
+                    continue
                 nxt = (st.snapshot(), self.extra_state(c))
                 nk = self._key(st, nxt)
                 if nk not in seen:
